@@ -38,6 +38,9 @@ func traceCompares(raw []bpf.RawInstruction, pcs []int) (cmps []cmpObs, loads []
 func c04() {
 	run := vlib.NewRun("C04", "translation_validation")
 	o, ts := mustTargets(run)
+	if x32, err := vlib.X32Target(o); err == nil {
+		ts = append(append([]*vlib.Target{}, ts...), x32) // policies for the x32 table: x86_64 events all the same
+	}
 	allArch := o.AllAuditArch()
 
 	nRandom := run.N(2400, 30000)
